@@ -144,6 +144,20 @@ pub struct ReplayOutcome {
     pub detail: String,
 }
 
+pub struct ExtraCtx {
+    pub root: std::path::PathBuf,
+    pub master_seed: u64,
+    pub workers: usize,
+}
+
+pub struct ExtraResult {
+    pub name: String,
+    pub evidence: J,
+    pub evaluations: u64,
+    pub violations: Vec<Violation>,
+    pub harness_errors: Vec<String>,
+}
+
 /// Static description of an engine for evidence and planning.
 pub struct EngineInfo {
     pub property: &'static str,
@@ -175,6 +189,10 @@ pub trait Engine: Sync {
     fn run_job(&self, ctx: &JobCtx) -> JobResult;
     /// executed in a fresh process: re-execute the explicit plan of a replay document
     fn replay(&self, doc: &J) -> ReplayOutcome;
+    /// additional arm that runs only in the thorough tier (e.g. Miri for C14)
+    fn thorough_extra(&self, _ctx: &ExtraCtx) -> Option<ExtraResult> {
+        None
+    }
     /// engine-specific helper process (simcheck aux <ID> args...)
     fn aux(&self, _args: &[String]) -> i32 {
         2
